@@ -228,6 +228,7 @@ def g_distributions(rng):
             {"id": "x.rev", "type": "ViewParameter", "parameter": "x", "indices": "::-1"},
             {"id": "xy", "type": "CatParameter", "parameters": ["x", "y"], "dim": -1},
             {"id": "y.log", "type": "TransformedParameter", "transform": "LogTransform", "x": "y"},
+            {"id": "ylog.first", "type": "ViewParameter", "parameter": "y.log", "indices": "0:1"},
             {"id": "x.affine", "type": "TransformedParameter", "transform": "torch.distributions.AffineTransform", "parameters": {"loc": P("aff.loc", [0.5]), "scale": 2.0}, "x": "x"},
             {"id": "y.convex", "type": "TransformedParameter", "transform": "ConvexCombinationTransform", "parameters": {"weights": P("conv.w", rng.dirichlet([3] * d).tolist())}, "x": "y"},
             {"id": "x.cumsumexp", "type": "TransformedParameter", "transform": "CumSumExpTransform", "x": "x"},
@@ -255,7 +256,7 @@ def g_distributions(rng):
             "leaves": {"x": "real", "y": "positive", "aff.loc": "real", "conv.w": "simplex", "n.loc": "real", "n.prec": "positive", "ln.mean": "positive", "ln.scale": "positive",
                        "g.conc": "positive", "g.rate": "positive", "rev.loc": "real", "xy.scale": "positive", "mvn.loc": "real", "mvn.tril.unres": "real", "detn.loc": "real", "detn.scale": "positive",
                        "bb.scale": "positive", "bb.alpha": "unit", "sm.global": "positive", "sm.local": "positive", "gc.prec": "positive", "gc.beta": "real"},
-            "derived": ["x.first", "x.head", "x.rev", "xy", "y.log", "x.affine", "y.convex", "x.cumsumexp", "mvn.tril"], "tensors": {}}
+            "derived": ["x.first", "x.head", "x.rev", "xy", "y.log", "ylog.first", "x.affine", "y.convex", "x.cumsumexp", "mvn.tril"], "tensors": {}}
 
 
 def g_time_plain(rng):
